@@ -20,3 +20,33 @@ Theorem reachability_and_transfer_independent_of_parent_source : forall kind_of 
   (forall fuel haves wants, select kind_of p1 cdeps fuel haves wants = select kind_of p2 cdeps fuel haves wants).
 Proof. intros kind_of p1 p2 cdeps E. split; [intros; apply find_reachable_ext; exact E|intros; apply select_parents_ext; exact E]. Qed.
 Print Assumptions reachability_and_transfer_independent_of_parent_source.
+
+(* ---------- the commit-graph file as a source of parents (Model/CommitGraph.v) ---------- *)
+From DV Require Import CommitGraph CommitGraphP.
+
+(* for every list of commits with any number of parents each (octopus merges of
+   any width included), all of them in the file: the parents read back from the
+   two slots and the extra edge list are the parents written, in order — the
+   hypothesis the two theorems above need of this source *)
+Theorem commit_graph_parents_roundtrip : forall cs, closed cs ->
+  decode_graph (encode_graph cs) = map (fun ps => Some (positions ps)) cs.
+Proof. exact graph_roundtrip. Qed.
+Print Assumptions commit_graph_parents_roundtrip.
+
+(* without that hypothesis the statement is false of the code: a parent that is
+   not in the file is written as "no parent" and the commit reads back as a root
+   (write_commit_graph(reachable=False); known finding) *)
+Theorem unclosed_commit_graph_keeps_parents_refuted : exists cs i,
+  nth_error cs i = Some [None] /\ nth_error (decode_graph (encode_graph cs)) i = Some (Some []).
+Proof. exists [[None]], 0%nat. vm_compute. split; reflexivity. Qed.
+Print Assumptions unclosed_commit_graph_keeps_parents_refuted.
+
+Local Open Scope Z_scope.
+Example octopus_merges_share_one_edge_list :
+  encode_graph [[]; [Some 0]; [Some 0; Some 1]; [Some 0; Some 1; Some 2]; [Some 3; Some 2; Some 1; Some 0]] =
+    ([(NONE, NONE); (0, NONE); (0, 1); (0, FLAG + 0); (3, FLAG + 2)], [1; 2 + FLAG; 2; 1; 0 + FLAG]) /\
+  closed [[]; [Some 0]; [Some 0; Some 1]; [Some 0; Some 1; Some 2]; [Some 3; Some 2; Some 1; Some 0]].
+Proof.
+  split; [vm_compute; reflexivity|]. split; [vm_compute; discriminate|].
+  intros ps H p Hp. cbn in H. repeat (destruct H as [<-|H]; [cbn in Hp; repeat (destruct Hp as [<-|Hp]; [eexists; split; [reflexivity|cbn; lia]|]); contradiction|]). contradiction.
+Qed.
